@@ -3,7 +3,7 @@ arguments after the seed), extra trusted-base entries."""
 
 PROPS = {
     "C17": {
-        "coq_deps": ["NodeLabelFacts", "ElemSet", "ElemSetFacts", "ContainsPrefix", "BitsLabel", "InsertRefine", "ContainsPrefixSorted", "AuditRebuild", "ContainsPrefixFrom"],
+        "coq_deps": ["NodeLabelFacts", "ElemSet", "ElemSetFacts", "ContainsPrefix", "LabelOrder", "BitsLabel", "InsertRefine", "ContainsPrefixSorted", "AuditRebuild", "ContainsPrefixFrom"],
         "steps": [
             {"sub": "labels", "quick": [0], "thorough": [1]},
         ],
